@@ -120,7 +120,9 @@ func (b *block) processTags(tf tagValues, tagFamilyIdx, i int, elementsLen int) 
 		} else if t.value != nil {
 			tags[j].uniqueValues[convert.BytesToString(t.value)] = struct{}{}
 		}
-		if t.valueType == pbv1.ValueTypeInt64 {
+		// A null has no value to bound. Letting it through would reset min to the empty slice, and the
+		// next value would then be taken as the minimum even if a smaller one came before the null.
+		if t.valueType == pbv1.ValueTypeInt64 && t.value != nil {
 			if len(tags[j].min) == 0 {
 				tags[j].min = t.value
 			} else if bytes.Compare(t.value, tags[j].min) == -1 {
